@@ -40,10 +40,12 @@ NA_REASONS = {
 }
 
 NOT_BUILT = "simulation target per DESIGN.md §1 but its engine is not built/sound yet in this tree, so it is not claimed"
-for _p in "C14 C36 C37 C39 C45".split():
+for _p in "C36 C37 C39 C45".split():
     NA_REASONS[_p] = NOT_BUILT
 
 ENGINE_INFO = {
+    "E6-loop-hook": {"path": "simkit/e6_loops.py", "serves_properties": ["C14"],
+                     "kind_free_text": "compiled loops with a scripted hook as second party (mutation/exit histories) vs CPython"},
     "E7-namespace-history": {"path": "simkit/e7_ns.py", "serves_properties": ["C26", "C27"],
                              "kind_free_text": "operation histories against per-call-site lookup/dispatch caches in several build cells vs CPython lookup"},
     "E5-fault-sweep": {"path": "simkit/e5_refs.py", "serves_properties": ["C35"],
@@ -63,6 +65,12 @@ ENGINE_INFO = {
 }
 
 CHECKS = {
+    "C14": {
+        "engine": "E6-loop-hook", "level": "exploration", "design_ref": "DESIGN.md §4 E6",
+        "technique": "deterministic simulation with a second party: the loop body calls the simulator's hook, which per the seeded script mutates the container being iterated (or steers break/continue/raise) at a chosen visit; visit sequence, RuntimeError, final loop variable, else clause and container state are compared with CPython; script shrinking as replay",
+        "text": "32 compiled loop shapes (dict views, sets, lists, tuples, str, bytes, bytearray, enumerate, reversed, range with Python and C-typed bounds, steps and targets incl. values at the C int limits, loops rebinding the iterated name) run under seeded scripts that tell the hook when to insert, burst-insert (resize), delete visited/unvisited entries, replace values, clear, or replace keys at constant size, and when to break, continue or raise. The trace must equal CPython's for the same source and script in three build cells. Sampling, not proof.",
+        "note": "SIM-part: the clause about mutation/exit histories is decided; C-array iteration and C arithmetic beyond values CPython can model are not. Typed range arguments are kept inside the C int range (outside it the call raises OverflowError, not this property). Known finding F10 matched narrowly. Exception messages other than RuntimeError's are not compared.",
+    },
     "C26": {
         "engine": "E7-namespace-history", "level": "exploration", "design_ref": "DESIGN.md §4 E7 (C26)",
         "technique": "deterministic simulation of operation histories against per-call-site lookup caches: seeded bind/delete/re-create/shadow/grow histories over a compiled module's namespace and the builtins module, every read compared with CPython executing the same source, in 4 build cells (dict-version caches on/off x cache_builtins on/off); ddmin replay",
